@@ -10,7 +10,7 @@
    PROVED (closed under the global context, no bound on size or depth):
 
      Theorem C02_roundtrip : forall t caller ord,
-       wf_tree t -> no_empty t = true -> valid_caller caller -> caller_prefixes_ncname caller ->
+       wf_tree t -> valid_caller caller -> caller_prefixes_ncname caller ->
        order_ok (bfs_of t) ord -> (N.of_nat (n_namespaces t + length caller + 17) < 2 ^ 16)%N ->
        reparse (serialize caller ord t) = Some (merge_tree t).
 
@@ -22,9 +22,8 @@
    xmlns namespace: C02-attribute-named-xmlns; PI content not starting with white space:
    C02-pi-content-leading-whitespace).  caller_prefixes_ncname: the caller's prefixes are NCNames (the code does
    not check it; a prefix with a colon or a space gives output that is not XML).
-   NOT covered by the theorem: trees with EMPTY text nodes (serialized as nothing since bfce419; an element
-   whose only children are empty text nodes is written <r></r> and read as <r/>, equal after merge_tree - this
-   case is exercised by the check and by C02_regression_empty_text, not proved in general).
+   Empty and adjacent text nodes are covered (Xml/EmptyTrip.v): an element whose only children are empty text
+   nodes is written <r></r>, read as a childless element, which is what merge_tree makes of it.
 
    How it is put together:
      1. C02_unescape_escape_text / _attr   escaping with the generated tables is undone by the reader's unescape.
@@ -38,8 +37,10 @@
         the environment the reader builds from it, env_lookup / resolve_qname: every written name resolves to
         the tree's expanded name (from the C13 clauses: function, injective, empty namespace un-prefixed,
         xml/xmlns untouched, prefix shapes); wf_resolves, wf_root_toks_ok.
-     6. Xml/MergeTrip.v: serialization, the breadth-first order and well-formedness are invariant under merge_tree
-        for trees without empty text nodes.
+     6. Xml/EmptyTrip.v: the token stream the lexer produces for ANY tree described structurally (adjacent texts
+        accumulate, an empty accumulation gives no token, <q></q> exactly when the element has children), and
+        steps 2-4 re-proved for it: read_kids_toksN builds merge_tree.  (Xml/MergeTrip.v, the earlier route via
+        invariance under merge_tree for trees without empty text nodes, is kept: C02_roundtrip_clean.)
    The reader itself is tied to lxml by the check (outputs and mutated streams), the serializer model to
    TagNode.serialize byte for byte. *)
 From Coq Require Import List NArith Bool.
@@ -47,7 +48,7 @@ From Delb.Base Require Import PyStr PyDict.
 From Delb.Gen Require Import GenNames GenNs.
 From Delb.Tree Require Import ATree Merge MergeFacts.
 From Delb.Ns Require Import Namespaces Prefixes PrefixFacts.
-From Delb.Xml Require Import Plain Reader Tokens RoundTrip NsResolve MergeTrip.
+From Delb.Xml Require Import Plain Reader Tokens RoundTrip NsResolve MergeTrip EmptyTrip.
 Import ListNotations.
 
 Theorem C02_unescape_escape_text : forall s, Forall text_char_ok s -> unescape false (escape_text s) = Some s.
@@ -76,15 +77,15 @@ Theorem C02_parse_render_toks : forall pm t,
 Proof. exact parse_render_toks. Qed.
 Print Assumptions C02_parse_render_toks.
 
-(* THE ROUND TRIP, for every well-formed tree without empty text nodes (adjacent text nodes allowed: the reader
-   gives back their concatenation, merge_tree), every caller mapping the Namespaces constructor accepts whose
-   prefixes are NCNames, every per-node iteration order, fewer than 2^16 namespaces and mapping entries:
-   serialization succeeds and the reference reader gives back the tree. *)
+(* THE ROUND TRIP, for every well-formed tree (adjacent and empty text nodes included: the reader gives back
+   merge_tree t), every caller mapping the Namespaces constructor accepts whose prefixes are NCNames, every
+   per-node iteration order, fewer than 2^16 namespaces and mapping entries: serialization succeeds and the
+   reference reader gives back the tree. *)
 Theorem C02_roundtrip : forall t caller ord,
-  wf_tree t -> no_empty t = true -> valid_caller caller -> caller_prefixes_ncname caller ->
+  wf_tree t -> valid_caller caller -> caller_prefixes_ncname caller ->
   order_ok (bfs_of t) ord -> (N.of_nat (n_namespaces t + length caller + 17) < 2 ^ 16)%N ->
   reparse (serialize caller ord t) = Some (merge_tree t).
-Proof. exact roundtrip. Qed.
+Proof. exact roundtrip_all. Qed.
 Print Assumptions C02_roundtrip.
 
 (* the same for clean trees (no adjacent, no empty text nodes: what every parser produces), where merge_tree t = t *)
@@ -101,12 +102,12 @@ Print Assumptions C02_roundtrip_clean.
 (* trees without namespaces, any caller mapping: an instance (the namespace stage is part of the proof, not a
    hypothesis) *)
 Theorem C02_roundtrip_nons : forall t caller,
-  wf_tree t -> no_empty t = true -> valid_caller caller -> caller_prefixes_ncname caller ->
+  wf_tree t -> valid_caller caller -> caller_prefixes_ncname caller ->
   (N.of_nat (n_namespaces t + length caller + 17) < 2 ^ 16)%N ->
   reparse (serialize caller (default_order (bfs_of t)) t) = Some (merge_tree t).
 Proof.
-  intros t caller H1 H2 H3 H4 H5.
-  exact (roundtrip t caller _ H1 H2 H3 H4 (PrefixFacts.default_order_ok (bfs_of t)) H5).
+  intros t caller H1 H3 H4 H5.
+  exact (roundtrip_all t caller _ H1 H3 H4 (PrefixFacts.default_order_ok (bfs_of t)) H5).
 Qed.
 Print Assumptions C02_roundtrip_nons.
 
@@ -126,14 +127,14 @@ Example C02_example :
 Proof. vm_compute. reflexivity. Qed.
 (* the hypotheses of C02_roundtrip hold of that document and mapping (non-vacuity) *)
 Example C02_example_hypotheses :
-  wf_tree c02_example_tree /\ no_empty c02_example_tree = true /\ valid_caller c02_example_caller
+  wf_tree c02_example_tree /\ valid_caller c02_example_caller
   /\ caller_prefixes_ncname c02_example_caller
   /\ (N.of_nat (n_namespaces c02_example_tree + length c02_example_caller + 17) < 2 ^ 16)%N.
 Proof.
   split.
   { split; [reflexivity|]. cbn [wf_node c02_example_tree]. unfold uri_ok, attr_wf, text_char_ok, attr_char_ok.
     repeat (split || constructor); try reflexivity; discriminate. }
-  split; [reflexivity|]. split.
+  split.
   { split; [repeat constructor; cbn; intuition discriminate|]. eexists. vm_compute. reflexivity. }
   split; [|vm_compute; reflexivity].
   intros p n [H|[H|[]]]; [discriminate H|]. injection H as <- <-. right. reflexivity.
